@@ -425,6 +425,14 @@ func localBool(g *Gate, sub *Summary, i int) Ref {
 // inside a complete range over coll without early exit, and P(x) (given as a function from the
 // element expression to a condition) implies the append's condition within the loop body.
 func collectsAll(g *Gate, s *Summary, acc *E, coll *E, P func(elem *E) Ref) bool {
+	ok, _ := accumulates(g, s, acc, coll, P)
+	return ok
+}
+
+// accumulates is the general form: acc (a value of activation s, possibly the result of an inlined
+// helper) is built from nothing by appends of the current element inside complete ranges over coll;
+// covers: P(x) implies the append's condition; exact: the append's condition is exactly P(x).
+func accumulates(g *Gate, s *Summary, acc *E, coll *E, P func(elem *E) Ref) (covers, exact bool) {
 	u := g.U
 	var accV ssa.Value
 	for v, e := range s.Env {
@@ -435,33 +443,37 @@ func collectsAll(g *Gate, s *Summary, acc *E, coll *E, P func(elem *E) Ref) bool
 		}
 	}
 	if accV == nil {
-		return false
+		return false, false
 	}
 	ems, bases := traceAppends(g, AV{s, accV})
 	if len(ems) == 0 || len(bases) != 0 {
-		return false
+		return false, false
 	}
-	loops := loopsOf(s.Fn)
+	covers, exact = true, true
 	for _, em := range ems {
-		if em.Act != s || len(em.Elems) != 1 {
-			return false
+		if len(em.Elems) != 1 {
+			return false, false
 		}
 		el := em.Elems[0]
 		if el.Op != "index" || el.Args[0] != coll {
-			return false
+			return false, false
 		}
-		l := innermostLoop(loops, em.Call.Block())
+		l := innermostLoop(loopsOf(em.Act.Fn), em.Call.Block())
 		if l == nil {
-			return false
+			return false, false
 		}
 		ro := rangedOver(l)
-		if ro == nil || !ro.Full || s.Env[ro.Coll] != coll || !onlyExhaustionExit(l) {
-			return false
+		if ro == nil || !ro.Full || em.Act.Env[ro.Coll] != coll || !onlyExhaustionExit(l) {
+			return false, false
 		}
-		body := u.bdd.And(s.RC[l.Header], contCond(u, s, l))
-		if !u.bdd.Implies(u.bdd.And(body, P(el)), em.RC) {
-			return false
+		body := u.bdd.And(em.Act.RC[l.Header], contCond(u, em.Act, l))
+		want := u.bdd.And(body, P(el))
+		if !u.bdd.Implies(want, em.RC) {
+			covers = false
+		}
+		if want != u.bdd.And(em.RC, body) {
+			exact = false
 		}
 	}
-	return true
+	return covers, covers && exact
 }
